@@ -96,6 +96,11 @@ def parseOp (env : Env) (tgt : StdT.Target) (line : String) : Option (Option Op 
   | ["shbh", hs, slot] => do
     let h ← hs.toNat?; let k ← (sharedKeys[slot.toNat?.getD 99]?)
     pure (some (.new h .auto false k), "")
+  | ["writefmtx", hs, _mode, _arg, exp] => do
+    -- `write!(hasher, <format string of mode>, args..)`: the provided `io::Write::write_fmt` makes `write` calls whose
+    -- concatenation is the formatted text `exp` (computed by the generator from the std formatting rules)
+    let h ← hs.toNat?; let d ← parseBytes? exp
+    if !env.cfg.std then pure (none, "unsupported") else pure (some (.writes h [d]), "")
   | ["hashone", a, b, c, d, v] => do
     let k ← parseKey? a b c d; let val ← parseVal? v
     pure (some (.hashOne k (StdT.writes tgt val)), "")
@@ -221,7 +226,7 @@ def stepLine (env : Env) (tgt : StdT.Target) (w : World) (line : String) : World
       -- no impl_write!/impl_hasher!): the runner reports `unsupported` for trait calls on it
       let tok := (line.trimAscii.toString.splitOn " ").headD ""
       let viaTrait := tok == "hwrite" || tok == "iowrite" || tok == "writeall" || tok == "iocopy" || tok == "finish" || tok == "flush" ||
-        tok == "hwval" || tok == "iowritev" || tok == "writefmt"
+        tok == "hwval" || tok == "iowritev" || tok == "writefmt" || tok == "writefmtx"
       let hnd : Option Nat := match op with
         | .append h _ | .ioWrite h _ | .finish h | .flush h | .writes h _ => some h
         | _ => none
